@@ -39,7 +39,7 @@ CREATE OR REPLACE MACRO vtl_tp_end_date(p vtl_time_period) AS (
         WHEN 'Q' THEN LAST_DAY(MAKE_DATE(p.year, p.period_number * 3, 1))
         WHEN 'M' THEN LAST_DAY(MAKE_DATE(p.year, p.period_number, 1))
         WHEN 'W' THEN CAST(STRPTIME(
-            CAST(p.year AS VARCHAR) || '-W'
+            vtl_year_str(p.year) || '-W'
             || LPAD(CAST(p.period_number AS VARCHAR), 2, '0') || '-7',
             '%G-W%V-%u') AS DATE)
         WHEN 'D' THEN CAST(MAKE_DATE(p.year, 1, 1)
@@ -55,7 +55,7 @@ CREATE OR REPLACE MACRO vtl_tp_start_date(p vtl_time_period) AS (
         WHEN 'Q' THEN MAKE_DATE(p.year, (p.period_number - 1) * 3 + 1, 1)
         WHEN 'M' THEN MAKE_DATE(p.year, p.period_number, 1)
         WHEN 'W' THEN CAST(STRPTIME(
-            CAST(p.year AS VARCHAR) || '-W'
+            vtl_year_str(p.year) || '-W'
             || LPAD(CAST(p.period_number AS VARCHAR), 2, '0') || '-1',
             '%G-W%V-%u') AS DATE)
         WHEN 'D' THEN CAST(MAKE_DATE(p.year, 1, 1)
@@ -75,7 +75,7 @@ CREATE OR REPLACE MACRO vtl_tp_getmonth(p vtl_time_period) AS (
         WHEN 'Q' THEN (p.period_number - 1) * 3 + 1
         WHEN 'M' THEN p.period_number
         WHEN 'W' THEN MONTH(CAST(STRPTIME(
-            CAST(p.year AS VARCHAR) || '-W'
+            vtl_year_str(p.year) || '-W'
             || LPAD(CAST(p.period_number AS VARCHAR), 2, '0') || '-1',
             '%G-W%V-%u') AS DATE))
         WHEN 'D' THEN MONTH(CAST(MAKE_DATE(p.year, 1, 1)
@@ -213,16 +213,16 @@ CREATE OR REPLACE MACRO vtl_monthtoday(dur) AS (
 -- Date → TimePeriod internal representation
 CREATE OR REPLACE MACRO vtl_time_agg_date(d, target VARCHAR) AS (
     CASE target
-        WHEN 'A' THEN CAST(YEAR(d) AS VARCHAR) || 'A'
-        WHEN 'S' THEN CAST(YEAR(d) AS VARCHAR) || '-S'
+        WHEN 'A' THEN vtl_year_str(YEAR(d)) || 'A'
+        WHEN 'S' THEN vtl_year_str(YEAR(d)) || '-S'
             || CAST(((MONTH(d) - 1) // 6) + 1 AS VARCHAR)
-        WHEN 'Q' THEN CAST(YEAR(d) AS VARCHAR) || '-Q'
+        WHEN 'Q' THEN vtl_year_str(YEAR(d)) || '-Q'
             || CAST(QUARTER(d) AS VARCHAR)
-        WHEN 'M' THEN CAST(YEAR(d) AS VARCHAR) || '-M'
+        WHEN 'M' THEN vtl_year_str(YEAR(d)) || '-M'
             || LPAD(CAST(MONTH(d) AS VARCHAR), 2, '0')
-        WHEN 'W' THEN CAST(ISOYEAR(d) AS VARCHAR) || '-W'
+        WHEN 'W' THEN vtl_year_str(ISOYEAR(d)) || '-W'
             || LPAD(CAST(WEEK(d) AS VARCHAR), 2, '0')
-        WHEN 'D' THEN CAST(YEAR(d) AS VARCHAR) || '-D'
+        WHEN 'D' THEN vtl_year_str(YEAR(d)) || '-D'
             || LPAD(CAST(DAYOFYEAR(d) AS VARCHAR), 3, '0')
     END
 );
